@@ -37,6 +37,10 @@ pub(crate) use base::*;
 vmod!(c21_alu, "c21_alu.rs");
 vmod!(flow, "c25_flow.rs");
 vmod!(memops, "c24_mem_ops.rs");
+vmod!(wide, "c22_wide.rs");
+vmod!(storage_reads, "c36_storage.rs");
+vmod!(ret, "c34_ret.rs");
+vmod!(misc, "c29_misc.rs");
 
 /// Counterexample replay (lib/replay.py): generated concrete-playback tests.
 #[cfg(verif_playback)]
